@@ -62,7 +62,7 @@ STUBS = """
     { unimplemented!() }
     #[verifier::external_body]
     pub fn generate_statement(&mut self, code: &StatementLoc) -> (res: Result<(), Error>)
-        requires old(self).gh@.skip is Some || old(self).gh@.belief_true, //@ C01:if-body-entered-with-true-belief
+        requires old(self).gh@.skip is Some || old(self).gh@.belief_true, //@ C01,C15:if-body-entered-with-true-belief
         ensures final(self).compiler_state == old(self).compiler_state, final(self).loops == old(self).loops, final(self).local_label_counter_if >= old(self).local_label_counter_if,
             res is Ok ==> final(self).gh@.skip == old(self).gh@.skip && final(self).gh@.flags_at_jump == old(self).gh@.flags_at_jump,
             res is Ok ==> final(self).gh@.ran == (if old(self).gh@.skip is Some { old(self).gh@.ran } else { old(self).gh@.ran.push(code.id) }),
@@ -111,7 +111,7 @@ HEADER = """pub(crate) fn generate_if(
             (res is Ok && else_body is None && body.statement is Break) ==> final(self).gh@.skip == after(None, truth(*condition), old(self).loops@[old(self).loops@.len() - 1].1@), //@ C01:if-break-shortcut
             (res is Ok && else_body is None && body.statement is Continue) ==> final(self).gh@.skip == after(None, truth(*condition), old(self).loops@[old(self).loops@.len() - 1].0@), //@ C01:if-continue-shortcut
             (res is Ok && else_body is None && body.statement is Continue) ==> old(self).loops@[old(self).loops@.len() - 1].0@.len() > 0, //@ C13,C16:if-continue-needs-a-loop
-            (res is Ok && final(self).gh@.skip is None) ==> final(self).gh@.belief_true, //@ C01:if-belief-true-afterwards
+            (res is Ok && final(self).gh@.skip is None) ==> final(self).gh@.belief_true, //@ C01,C15:if-belief-true-afterwards
 """
 
 
@@ -166,7 +166,7 @@ def build(repo):
         cuts.append(h)
         h.set_header("""#[verifier::exec_allows_no_decreases_clause]
 fn has_logical_operator(condition: &Expr) -> (r: bool)
-    ensures r == logical(*condition), //@ C01:if-logical-operator-recognised
+    ensures r == logical(*condition), //@ C01,C15:if-logical-operator-recognised
 """, expect_sig="fn has_logical_operator(condition: &Expr) -> bool")
         helper = h.text
     except Undecided:
